@@ -189,24 +189,25 @@ def oracle_zoo(ctx, inputs):
                 continue
             anchors = anchored_at_end(e)
             for inp in inputs:
-                signal.setitimer(signal.ITIMER_PROF, 2.0)
                 try:
-                    for entry, exc, parsed in run_entries(e, inp):
-                        key = "%s|%s|%r" % (name, entry, inp)
-                        ctx.case(key, nontrivial=len(inp) >= 1, agreed=True)
-                        if exc is None:
-                            continue
-                        ctx.stat("zoo_exceptions")
-                        bad = check_exception(exc, parsed, name, entry, inp, anchors)
-                        if bad:
-                            ctx.violation(defect_key(exc, bad, e),
-                                          "%s.%s(%r): %s" % (name, entry, inp, bad),
-                                          {"kind": "zoo", "element": name, "entry": entry, "input": inp})
+                    try:
+                        signal.setitimer(signal.ITIMER_PROF, 2.0, 0.25)     # repeating: an alarm raised inside a __del__ / weakref callback is swallowed
+                        for entry, exc, parsed in run_entries(e, inp):
+                            key = "%s|%s|%r" % (name, entry, inp)
+                            ctx.case(key, nontrivial=len(inp) >= 1, agreed=True)
+                            if exc is None:
+                                continue
+                            ctx.stat("zoo_exceptions")
+                            bad = check_exception(exc, parsed, name, entry, inp, anchors)
+                            if bad:
+                                ctx.violation(defect_key(exc, bad, e),
+                                              "%s.%s(%r): %s" % (name, entry, inp, bad),
+                                              {"kind": "zoo", "element": name, "entry": entry, "input": inp})
+                    finally:
+                        signal.setitimer(signal.ITIMER_PROF, 0)
                 except _Timeout:
                     ctx.stat("zoo_timeouts")
-                finally:
-                    signal.setitimer(signal.ITIMER_PROF, 0)
-                    pp.ParserElement.disable_memoization()
+                pp.ParserElement.disable_memoization()
     finally:
         signal.signal(signal.SIGPROF, old)
 
